@@ -256,6 +256,22 @@ func (w *World) loopHead(fr *Frame, st *State, h *ssa.BasicBlock, k int) {
 		w.quantFacts = nil
 		w.rawFacts = nil
 	}
+	// a counted loop "for i := e; i < len(S); i++" whose variable is only ever incremented: i never drops below
+	// its value on entry (what a range loop's hidden index gets for free)
+	var monoCell *ssa.Alloc
+	var monoFloor Term
+	if a, _ := countedLoop(h); a != nil && !a.Heap && monotoneIn(a, fr.loops.body[h]) {
+		if cur, live := st.cells[cellID{fr.id, a}]; live {
+			monoCell, monoFloor = a, cur
+		}
+	}
+	defer func() {
+		if monoCell != nil {
+			if cur, live := st.cells[cellID{fr.id, monoCell}]; live {
+				w.sc.assume(implies(st.cond, le(monoFloor, cur)))
+			}
+		}
+	}()
 	// havoc what the loop may write
 	cells, keys, all := w.loopWrites(fr, fr.loops.body[h])
 	if fr.top && fr.contract != nil && fr.contract.Opts["loopframes"] == "none" {
@@ -1525,4 +1541,46 @@ func (w *World) unrollArrival(fr *Frame, st *State, k int) {
 		}
 	}
 	fr.loopHeads[k] = st.clone()
+}
+
+// monotoneIn reports whether every store to the local a inside the given blocks has the form a = a + c with a
+// positive constant c.
+func monotoneIn(a *ssa.Alloc, blocks []*ssa.BasicBlock) bool {
+	n := 0
+	for _, b := range blocks {
+		for _, ins := range b.Instrs {
+			st, ok := ins.(*ssa.Store)
+			if !ok || st.Addr != ssa.Value(a) {
+				continue
+			}
+			n++
+			bin, ok := st.Val.(*ssa.BinOp)
+			if !ok || bin.Op != token.ADD {
+				return false
+			}
+			ld, ok := bin.X.(*ssa.UnOp)
+			if !ok || ld.Op != token.MUL || ld.X != ssa.Value(a) {
+				return false
+			}
+			c, ok := bin.Y.(*ssa.Const)
+			if !ok || c.Value == nil || c.Int64() <= 0 {
+				return false
+			}
+		}
+	}
+	// the address must not be used for anything but loads and these stores
+	if refs := a.Referrers(); refs != nil {
+		for _, r := range *refs {
+			switch x := r.(type) {
+			case *ssa.Store:
+				if x.Addr != ssa.Value(a) {
+					return false
+				}
+			case *ssa.UnOp, *ssa.DebugRef:
+			default:
+				return false
+			}
+		}
+	}
+	return n > 0
 }
